@@ -97,6 +97,34 @@ def monitor_poison(case, rec):
     return viol
 
 
+def monitor_poison_c02(case, rec):
+    """torn-entry cases, C02: whatever the scheduler believed about the cache, no task's run() may be entered (an X
+    record) while one of its direct dependencies has not finished (executed or loaded: a Y event) in this call"""
+    viol = []
+    ev = rec['events']
+    kids = case['kids']
+    for line in rec['execs']:
+        parts = line.split(' ')
+        if parts[0] != 'X':
+            continue
+        t = int(parts[1])
+        if not kids[t]:
+            continue
+        begun = next((i for i, e in enumerate(ev) if e[0] == 'B' and e[1] == t), None)
+        if begun is None:
+            begun = next((i for i, e in enumerate(ev) if e[0] == 'S' and e[1] == t), len(ev))
+        done_before = {e[1] for e in ev[:begun] if e[0] == 'Y'}
+        missing = sorted(set(kids[t]) - done_before)
+        if missing:
+            reads = parts[2] if len(parts) > 2 else ''
+            never = sorted(d for d in missing if not any(e[0] == 'Y' and e[1] == d for e in ev))
+            viol.append(f'run() of task {t} was entered (it read [{reads}] from its dependencies) although its '
+                        f'dependencies {missing} had not finished in this call'
+                        + (f' ({never} never ran or loaded at all)' if never else '')
+                        + ('; the task has a torn cache entry' if t in [int(w) for w in case.get('poison', [])] else ''))
+    return viol
+
+
 def ref_plain(case):
     """plain sequential dependency-first evaluation with nothing cached"""
     n = len(case['ty'])
@@ -226,6 +254,33 @@ def monitor(case, rec):
             if left or len(rem) >= 2:
                 nt['C17'] = True
 
+    # ---- C17: a result that was released must not be readable through a task object either
+    if not rec.get('after_abort'):
+        for line in rec.get('indirect', []):
+            parts = line.split(' ')
+            t = int(parts[1])
+            begun = next((i for i, e in enumerate(ev) if e[0] == 'B' and e[1] == t), None)
+            if begun is None:
+                continue
+            done = {e[1]: e[2] for e in ev[:begun] if e[0] == 'Y'}
+            for item in parts[2].split(','):
+                g = int(item.split(':')[0])
+                held = done.get(g, '').startswith('ok') and any(
+                    (not d['cached'](u)) and g in kids[u] and u not in done for u in closure)
+                if not held:
+                    users = sorted(u for u in closure if (not d['cached'](u)) and g in kids[u])
+                    viol['C17'].append(
+                        f'inside run() of task {t} (which holds task {g} only through a dependency) `.result` of task {g} '
+                        f'answered {item.split(":")[1]} although ' + (
+                            f'its direct dependents {users} had all finished before task {t} started: the result had been released'
+                            if g in done else f'task {g} had not finished'))
+        if status.startswith('returned') and rec.get('readable_after'):
+            ra = rec['readable_after']
+            viol['C17'].append(
+                f'after run_tasks returned, `.result` of {len(ra)} task object(s) still answers instead of raising TaskError: '
+                + '; '.join(f'task {k} (object {i}) gave {what}' for i, k, what in ra[:4])
+                + ': results are still held when nothing needs them')
+
     # ---- exec records
     counts = {}
     for line in rec['execs']:
@@ -295,6 +350,9 @@ def monitor(case, rec):
                 if last_r[2]:
                     viol['C17'].append(f'results {last_r[2]} still in memory when run_tasks returned')
     else:
+        for t, o in sorted(yielded.items()):
+            if o in ('exc', 'died') and t in rec['store'] and t not in case['pre'] and t not in rec['inflight']:
+                viol['C10'].append(f'task {t} failed ({o}) yet the cache holds the value {rec["store"][t]} for it')
         if first_fail_idx is not None:
             ft = ev[first_fail_idx][1]
             if status != f'raised LabError {ft}':
@@ -302,8 +360,9 @@ def monitor(case, rec):
             else:
                 cause = rec.get('lab_error_cause')
                 o = ev[first_fail_idx][2]
-                if cause is not None and o == 'exc' and case['fl'][ft] & 33 and not (
-                        cause[0] == 'ValueError' and f'task {ft} fails' in cause[1]):
+                own = (cause is not None and (cause[0] == 'TypeError' if (case['fl'][ft] & 257) == 257 else
+                                              cause[0] == 'ValueError' and f'task {ft} fails' in cause[1]))
+                if cause is not None and o == 'exc' and case['fl'][ft] & 33 and not own:
                     viol['C10'].append(f'LabError is not caused by the failing task\'s own exception: __cause__ is {cause[0]}({cause[1]!r})')
         elif not status.startswith('returned') and not status.startswith('HANG'):
             viol['C10'].append(f'no task failed but run ended with {status!r}')
